@@ -7,7 +7,7 @@ A property module harness/cXX.py defines
     def run(ctx): ...                    (generates cases, runs impl + model + oracle, reports through ctx)
 and the entry point ./check drives it.
 """
-import os, sys, json, time, hashlib, subprocess, signal, fcntl, re, random, traceback
+import os, sys, json, time, hashlib, subprocess, signal, fcntl, re, random, traceback, functools, inspect, types, contextlib
 from fractions import Fraction
 
 VERIF = os.path.dirname(os.path.dirname(os.path.abspath(__file__)))
@@ -446,6 +446,9 @@ class Ctx:
         self.model_cases = 0
         self.escalated = False     # set by ./check when the anchored source differs from source_pins.json
         self.deadline = None
+        self.last_variant = None   # input-representation layer: what the LAST wrapped bct call was given (None = as passed)
+        self._variants_taken = []
+        self._variants_since_case = []
 
     @property
     def thorough(self):
@@ -469,31 +472,88 @@ class Ctx:
         if self.deadline is not None and time.time() > self.deadline:
             raise EscalationBudget()
         self.evaluations += 1
+        self._variants_since_case = []       # input-representation layer: tie_variants(case, since_case=True)
+        if isinstance(case, dict) and ('_input_variant' in case or 'input_variant' in case):
+            case = {k: v for k, v in case.items() if k not in ('_input_variant', 'input_variant')}    # a case is its values, not their storage
         if nontrivial:
             self.nontrivial.add(jhash(case))
         if len(self.samples) < 3 or (sample_every and self.evaluations % sample_every == 0 and len(self.samples) < 8):
             self.samples.append(tolist(case))
 
-    def fail(self, key, what, case):
-        """the implementation violates a clause of the property on `case` (direct oracle)"""
+    def take_variants(self):
+        """input-representation layer, for harnesses that judge a call LATER (batched model runs, metamorphic pairs): the variants
+        applied since the last take, to be stored as case['_input_variant'] right after the implementation call(s) of the case"""
+        v, self._variants_taken = getattr(self, '_variants_taken', []), []
+        return v or None
+
+    def tag_case(self, case):
+        """-> the case with the variants applied since the last take_variants() attached (see take_variants)"""
+        v = self.take_variants()
+        if v and isinstance(case, dict):
+            case = dict(case)
+            case['_input_variant'] = list(case.get('_input_variant') or []) + v
+        return case
+
+    def _variant_key(self, key, case):
+        """input-representation layer: a failure about the function whose last call ran on another representation of the
+        harness's arguments is keyed '<key>[kind]' and its case says how the input has to be represented.
+        -> (key, case, attributed variants [(function, kind)])"""
+        v = (case.get('_input_variant') or case.get('input_variant')) if isinstance(case, dict) else None
+        explicit = bool(v)
+        if not v:
+            v = self.last_variant
+        if not v:
+            return key, case, []
+        vs = [v] if isinstance(v, dict) else list(v)
+        # which bct functions does the key name?  '<function>:<clause>', '<function>[..]:<clause>', pairs 'f/g', 'agree:f/g[..]'
+        wrapped = _VAR['wrapped']
+        named = [t for t in dict.fromkeys(re.findall(r'[A-Za-z_][A-Za-z_0-9]*', str(key))) if t in wrapped]
+        if named:
+            hit = [x for x in vs if x.get('function') in named]
+            if not hit:
+                return key, case, []
+            tag = '+'.join(dict.fromkeys((x['kind'] if len(named) == 1 else '%s/%s' % (x['function'], x['kind'])) for x in hit))
+        elif explicit:
+            hit = vs                     # the key names no bct function; the harness tied these converted calls to the case
+            tag = '+'.join(dict.fromkeys('%s/%s' % (x['function'], x['kind']) for x in hit))
+        else:
+            return key, case, []
+        case = dict(case) if isinstance(case, dict) else {'case': case}
+        case.pop('input_variant', None)
+        case['_input_variant'] = [x if 'call' in x else variant_record(x) for x in (vs if explicit else hit)]
+        return '%s[%s]' % (key, tag), case, [(x['function'], x['kind']) for x in hit]
+
+    def _known(self, keys, what, case, need_corr=False, attributed=()):
         for f in self.findings:
-            if f.get('status') == 'open' and f.get('key') == key:
+            if f.get('status') != 'open' or (need_corr and not f.get('covers_correspondence')):
+                continue
+            # exact key, or a finding about one (function, representation): "<function>:*[<kind>]" covers every clause judged on
+            # a call of that function that ran on that representation (the function is known to be wrong for it)
+            if f.get('key') in keys or (f.get('variant_function'), f.get('variant_kind')) in attributed:
+                key = f['key']
                 if key not in self.known_hits:
                     self.known_hits[key] = {'what': what, 'case': tolist(case), 'n': 0, 'finding': f}
                 self.known_hits[key]['n'] += 1
-                return
+                return True
+        return False
+
+    def fail(self, key, what, case):
+        """the implementation violates a clause of the property on `case` (direct oracle)"""
+        vkey, case, att = self._variant_key(key, case)
+        # a finding recorded for the plain key is not specific to a representation: it covers the tagged key as well
+        if self._known({vkey, key}, what, case, attributed=att):
+            return
+        key = vkey
         if len(self.oracle_fail) < 50:
             self.oracle_fail.append({'key': key, 'what': what, 'case': tolist(case)})
         self.count('oracle_fail:' + key)
 
     def mismatch(self, key, what, case, model=None, impl=None):
         """model and implementation disagree on `case` (correspondence)"""
-        for f in self.findings:
-            if f.get('status') == 'open' and f.get('key') == key and f.get('covers_correspondence'):
-                if key not in self.known_hits:
-                    self.known_hits[key] = {'what': what, 'case': tolist(case), 'n': 0, 'finding': f}
-                self.known_hits[key]['n'] += 1
-                return
+        vkey, case, att = self._variant_key(key, case)
+        if self._known({vkey, key}, what, case, need_corr=True, attributed=att):
+            return
+        key = vkey
         if len(self.disagree) < 50:
             self.disagree.append({'key': key, 'what': what, 'case': tolist(case), 'model': tolist(model), 'impl': tolist(impl)})
         self.count('mismatch:' + key)
@@ -585,3 +645,302 @@ def finish(ctx, st):
     print('OK property=%s tier=%s obligations=%d/%d cases=%d distinct_nontrivial=%d model_cases=%d wall=%.1fs' % (
         pid, ctx.tier, st['discharged'], st['obligations'], ctx.evaluations, len(ctx.nontrivial), ctx.model_cases, time.time() - ctx.t0))
     return 0
+
+
+# ---------------------------------------------------------------- input-representation variant layer
+# (design_notes/variants.md)  Every property quantifies over every input NETWORK, not over float64 C-ordered ndarrays: a
+# matrix of 0/1 values is the same network whether it is stored as float64, bool, uint8 or int64, C- or Fortran-ordered, or
+# as a transposed / strided view.  install_variants(ctx) puts a proxy in the place of sys.modules['bct'] whose public
+# functions hand the REAL function another representation of the SAME values now and then, so that each harness's own oracle
+# and model correspondence judge those calls too.  The layer makes no extra calls (one exception: when a call on a converted
+# argument raises, the call is repeated on the arguments as given, to tell 'raises for this representation' from 'raises').
+VARIANT_KINDS = ('fortran', 'tview', 'strided', 'int64', 'int32', 'uint8', 'int8', 'bool')
+VARIANT_HOW = {
+    'fortran': 'np.asfortranarray(A)',
+    'tview': 'A.T.copy(order="C").T   (non-contiguous-in-C view of another array; same values)',
+    'strided': 'big = np.full(tuple(2*d for d in A.shape), 9.0); big[::2, ...] = A; big[::2, ...]   (every other element of a larger array)',
+    'int64': 'A.astype(np.int64)', 'int32': 'A.astype(np.int32)', 'uint8': 'A.astype(np.uint8)', 'int8': 'A.astype(np.int8)',
+    'bool': 'A.astype(bool)',
+}
+_INT_RANGE = {'int64': (-2.0 ** 53 + 1, 2.0 ** 53 - 1), 'int32': (-2.0 ** 31, 2.0 ** 31 - 1), 'uint8': (0.0, 255.0), 'int8': (-128.0, 127.0),
+              'bool': (0.0, 1.0)}
+_VAR = {'ctx': None, 'off': 0, 'real': None, 'proxy': None, 'wrapped': set(), 'retry': [], 'p': 0.25, 'counter': 0, 'pending': {}, 'ncalls': {}, 'skip': set(),
+        'kinds': VARIANT_KINDS, 'salt': 0, 'sigs': {}}
+VARIANTS_DEFAULT = '0'    # while the layer is being triaged (other agents run ./check concurrently); '1' once the tree is green with it
+FORCE_WINDOW = 300        # per function: calls during which a not-yet-exercised kind is taken as soon as it applies
+
+
+def apply_variant(kind, A):
+    """the same values as the float64 array A in the representation `kind` (always a NEW buffer: the callee may write into
+    it without touching the harness's array)"""
+    if kind == 'fortran':
+        return np.array(A, order='F', copy=True)
+    if kind == 'tview':
+        return A.T.copy(order='C').T
+    if kind == 'strided':
+        big = np.full(tuple(2 * d for d in A.shape), 9.0)
+        sl = tuple(slice(None, None, 2) for _ in A.shape)
+        big[sl] = A
+        return big[sl]
+    return A.astype({'int64': np.int64, 'int32': np.int32, 'uint8': np.uint8, 'int8': np.int8, 'bool': np.bool_}[kind])
+
+
+def variant_kinds_of(A, kinds=VARIANT_KINDS):
+    """the kinds that are value-preserving AND change something for this float64 array"""
+    out = []
+    if A.ndim >= 2 and not A.flags.f_contiguous:
+        if 'fortran' in kinds:
+            out.append('fortran')
+        if A.ndim == 2 and 'tview' in kinds:
+            out.append('tview')
+    if 'strided' in kinds:
+        out.append('strided')
+    ints = [k for k in kinds if k in _INT_RANGE]
+    if ints and bool(np.isfinite(A).all()) and bool((A == np.rint(A)).all()):
+        lo, hi = float(A.min()), float(A.max())
+        out += [k for k in ints if _INT_RANGE[k][0] <= lo and hi <= _INT_RANGE[k][1]]
+    return out
+
+
+@contextlib.contextmanager
+def no_variants():
+    """calls made inside this block get the harness's arguments exactly as passed (blocks that test dtype, object identity
+    or mutation of the very array handed over)"""
+    _VAR['off'] += 1
+    try:
+        yield
+    finally:
+        _VAR['off'] -= 1
+
+
+def take_variants():
+    """module-level form of Ctx.take_variants for helpers that have no ctx at hand (None when the layer is off)"""
+    ctx = _VAR['ctx']
+    return ctx.take_variants() if ctx is not None else None
+
+
+def tie_variants(case, key='_input_variant', since_take=False, since_case=False):
+    """for clauses that are judged LATER than the call (batched model runs, pairs of calls): attach the representation the most
+    recent wrapped bct call ran on (if it was converted) to the case dict IN PLACE, accumulating over the calls of the case.
+    since_take=True: everything converted since the last take_variants() instead (a case made of several bct calls);
+    since_case=True: everything converted since the last ctx.case(...) (harnesses that register the case, then call).
+    Use key='input_variant' where the harness strips keys that start with an underscore before reporting."""
+    ctx = _VAR['ctx']
+    if ctx is None or not isinstance(case, dict):
+        return case
+    v = list(ctx._variants_since_case) if since_case else (ctx.take_variants() or []) if since_take else ([ctx.last_variant] if ctx.last_variant is not None else [])
+    have = list(case.get(key) or [])
+    v = [x for x in v if not any(x is y for y in have)]
+    if v:
+        case[key] = have + v
+    return case
+
+
+@contextlib.contextmanager
+def variant_retry(cleanup):
+    """a harness that records side information while the implementation runs (a proxy for the module's `np`, a patched scipy
+    routine) registers `cleanup()` for the block: when a call on a converted argument raises and is repeated on the arguments as
+    given, what the aborted call left in the recording is dropped first"""
+    _VAR['retry'].append(cleanup)
+    try:
+        yield
+    finally:
+        _VAR['retry'].remove(cleanup)
+
+
+def _var_eligible(x):
+    return type(x) is np.ndarray and x.dtype == np.float64 and 1 <= x.ndim <= 3 and x.size > 0
+
+
+def _var_sig(name, f):
+    s = _VAR['sigs'].get(name)
+    if s is None:
+        try:
+            ps = [p.name for p in inspect.signature(f).parameters.values() if p.kind in (p.POSITIONAL_ONLY, p.POSITIONAL_OR_KEYWORD)]
+        except (TypeError, ValueError):
+            ps = []
+        s = _VAR['sigs'][name] = ps
+    return s
+
+
+def _var_plan(name, f, a, k, ctx):
+    """-> (kind, [where...]) or None; `where` is a positional index or a keyword name"""
+    st = _VAR
+    cands = [(i, x) for i, x in enumerate(a) if _var_eligible(x)] + [(n, x) for n, x in k.items() if _var_eligible(x)]
+    if not cands:
+        return None
+    names = _var_sig(name, f)
+    if 'out' in k or k.get('copy', True) is False:
+        return None
+    if 'copy' in names and names.index('copy') < len(a) and a[names.index('copy')] is False:
+        return None
+    r = random.Random(((ctx.seed * 1000003 + int(ctx.pid[1:])) * 1000003 + st['salt']) * 1000003 + st['counter'])
+    take = r.random() < st['p']
+    n = st['ncalls'][name] = st['ncalls'].get(name, 0) + 1
+    pend = st['pending'].setdefault(name, set(st['kinds']))
+    look = bool(pend) and n <= FORCE_WINDOW
+    if not (take or look):
+        return None
+    app = {}
+    for w, x in cands:
+        for kd in variant_kinds_of(x, st['kinds']):
+            app.setdefault(kd, []).append(w)
+    if not app:
+        return None
+    if look:
+        for kd in st['kinds']:
+            if kd in pend and kd in app:
+                pend.discard(kd)
+                return kd, app[kd]
+    if not take:
+        return None
+    kd = r.choice([x for x in st['kinds'] if x in app])
+    ws = [w for w in app[kd] if r.random() < 0.7] or [app[kd][r.randrange(len(app[kd]))]]
+    pend.discard(kd)
+    return kd, ws
+
+
+def _var_enc(x):
+    if isinstance(x, np.ndarray):
+        return {'ndarray': x.tolist(), 'dtype': str(x.dtype), 'shape': list(x.shape)} if x.size <= 4096 else 'ndarray%s' % (x.shape,)
+    if isinstance(x, (str, int, float, bool, type(None))):
+        return x
+    if isinstance(x, (np.integer, np.floating, np.bool_)):
+        return x.item()
+    if isinstance(x, (list, tuple)) and len(x) <= 64:
+        return [_var_enc(y) for y in x]
+    return repr(x)[:80]
+
+
+class VariantInfo(dict):
+    """{'function', 'kind', 'arguments'} of one converted call; the call itself (references to the harness's own arguments) rides
+    along as an attribute so that it is written out only when a failure is reported"""
+    call_ref = ((), {})
+
+
+def variant_record(info):
+    """what goes into a replay file: function, kind, which arguments, the call as the harness made it, how to convert"""
+    a, k = getattr(info, 'call_ref', ((), {}))
+    return {'function': info['function'], 'kind': info['kind'], 'arguments': info['arguments'],
+            'call': info.get('call') or {'args': _var_enc(list(a)), 'kwargs': {str(q): _var_enc(v) for q, v in k.items()}},
+            'how': 'the failing call is %s(*args, **kwargs) of `call` with the listed ndarray argument(s) A (float64, C-ordered in this '
+                   'file) replaced by %s - the same values in another representation; on the arrays as written here the failure may '
+                   'not show.  tools/variant_repro.py <this file> makes both calls.' % (info['function'], VARIANT_HOW[info['kind']])}
+
+
+def _wrap_variant(name, f):
+    @functools.wraps(f)
+    def variant_call(*a, **k):
+        st = _VAR
+        ctx = st['ctx']
+        if ctx is None:
+            return f(*a, **k)
+        ctx.last_variant = None
+        if st['off'] or name in st['skip']:
+            return f(*a, **k)
+        st['counter'] += 1
+        plan = _var_plan(name, f, a, k, ctx)
+        if plan is None:
+            return f(*a, **k)
+        kind, ws = plan
+        a2, k2 = list(a), dict(k)
+        for w in ws:
+            if isinstance(w, int):
+                a2[w] = apply_variant(kind, a[w])
+            else:
+                k2[w] = apply_variant(kind, k[w])
+        info = VariantInfo({'function': name, 'kind': kind, 'arguments': [w if isinstance(w, str) else 'positional %d' % w for w in ws]})
+        info.call_ref = (a, k)
+        ctx.count('variant:' + kind)
+        ctx.count('variant_fn:' + name)
+        # generators passed as seed: remembered so that a call that raises can be repeated on the arguments as given
+        rngs = [(x, x.get_state(), len(x.log) if isinstance(getattr(x, 'log', None), list) else None)
+                for x in list(a) + list(k.values()) if isinstance(x, np.random.RandomState)]
+        glob = np.random.get_state()
+        hooks = getattr(sys.modules.get('bct.utils._verif'), 'LOG', None)      # observation hooks of the instrumented routines
+        nhooks = len(hooks) if isinstance(hooks, list) else None
+        ctx.last_variant = info
+        ctx._variants_taken = (ctx._variants_taken + [info])[-16:]
+        ctx._variants_since_case = (ctx._variants_since_case + [info])[-32:]
+        try:
+            return f(*a2, **k2)
+        except Timeout:
+            raise                      # the one-shot alarm of common.call is spent: no second call; last_variant tags the harness's verdict
+        except Exception as e:
+            exc = e
+        # the converted call raised: is it the representation?  repeat on the arguments exactly as the harness passed them
+        ctx.last_variant = None
+        ctx._variants_taken = [x for x in ctx._variants_taken if x is not info]
+        ctx._variants_since_case = [x for x in ctx._variants_since_case if x is not info]
+        np.random.set_state(glob)
+        if nhooks is not None:
+            del hooks[nhooks:]
+        for cleanup in list(st['retry']):
+            cleanup()
+        for x, state, nlog in rngs:
+            x.set_state(state)
+            if nlog is not None:
+                del x.log[nlog:]
+        res = f(*a, **k)               # raises as well -> the harness sees what it would have seen without the layer
+        ctx.last_variant = info
+        ctx.fail('%s:raises-for-representation' % name, '%s raises %s: %s when the argument(s) %s hold the same values as %s; it returns normally on the float64 arrays' % (
+            name, type(exc).__name__, str(exc)[:200], info['arguments'], kind),
+            {'function': name, 'exception': '%s: %s' % (type(exc).__name__, str(exc)[:300])})
+        ctx.last_variant = None
+        return res
+    variant_call._verif_variant = True
+    return variant_call
+
+
+class _BctProxy(types.ModuleType):
+    """stands for the package `bct` in sys.modules while a harness runs: the same namespace, public functions wrapped;
+    sub-modules and everything else are the real objects"""
+
+    def __getattr__(self, name):          # only reached for names that are not in the proxy's own namespace (late additions)
+        return getattr(_VAR['real'], name)
+
+
+def install_variants(ctx):
+    """called by ./check right before mod.run(ctx) (normal and escalated pass); VERIF_VARIANTS=0 switches the layer off"""
+    import importlib
+    st = _VAR
+    if st['real'] is None:
+        real = sys.modules.get('bct')
+        if isinstance(real, _BctProxy):
+            real = st['real']
+        if real is None:
+            real = importlib.import_module('bct')
+        st['real'] = real
+    real = st['real']
+    mod = ctx.mod
+    off = os.environ.get('VERIF_VARIANTS', VARIANTS_DEFAULT) == '0' or bool(getattr(mod, 'VARIANTS_OFF', False))
+    ctx.last_variant = None
+    if off:
+        sys.modules['bct'] = real
+        st['ctx'] = None
+        ctx.extra['input_variants'] = 'off' + (' (VARIANTS_OFF in harness/%s.py: %s)' % (ctx.pid.lower(), getattr(mod, 'VARIANTS_OFF_WHY', 'the harness tests the very objects it passes')) if getattr(mod, 'VARIANTS_OFF', False) else ' (VERIF_VARIANTS=0)')
+        return None
+    kinds = tuple(kd for kd in VARIANT_KINDS if kd in set(getattr(mod, 'VARIANT_KINDS', VARIANT_KINDS)))
+    p_default = '0.25' if ctx.tier == 'quick' else '0.35'
+    st.update(ctx=ctx, off=0, counter=0, pending={}, ncalls={}, skip=set(getattr(mod, 'VARIANT_SKIP', ())), kinds=kinds,
+              p=float(os.environ.get('VERIF_VARIANT_P', p_default) or p_default), salt=1 if ctx.escalated else 0)
+    proxy = _BctProxy('bct', real.__doc__)
+    ns = proxy.__dict__
+    for key, v in vars(real).items():
+        if inspect.isfunction(v) and (getattr(v, '__module__', '') or '').startswith('bct') and not key.startswith('_') \
+                and not getattr(v, '_verif_variant', False):
+            v = _wrap_variant(key, v)
+            st['wrapped'].add(key)
+        ns[key] = v                        # __name__, __path__, __spec__, __file__, __package__, __loader__, sub-modules: as they are
+    st['proxy'] = proxy
+    sys.modules['bct'] = proxy
+    ctx.extra['input_variants'] = {'p': st['p'], 'kinds': list(kinds), 'skipped_functions': sorted(st['skip']),
+                                   'rule': 'first applicable call of every (function, kind) is taken, then each call with probability p; '
+                                           'decisions from random.Random(seed, property, call counter), never from ctx.rng / ctx.nprng'}
+    return proxy
+
+
+def uninstall_variants():
+    if _VAR['real'] is not None:
+        sys.modules['bct'] = _VAR['real']
+    _VAR['ctx'] = None
